@@ -689,7 +689,7 @@ impl<'a> Exec<'a> {
         let m4 = self.model.torrents.keys().filter(|k| !k.0).count();
         let m6 = self.model.torrents.keys().filter(|k| k.0).count();
         if t4 != m4 || t6 != m6 {
-            self.fail(&["C08"], "torrent-dropped-when-empty", "torrent-count", format!("after clean at {} s the storage holds {}/{} (v4/v6) torrent entries but {} / {} torrents have peers and are permitted", now, t4, t6, m4, m6));
+            self.fail(&["C08", "C10"], "torrent-dropped-when-empty", "torrent-count", format!("after clean at {} s the storage holds {}/{} (v4/v6) torrent entries but {} / {} torrents have peers and are permitted", now, t4, t6, m4, m6));
             return;
         }
         self.check_scrape_hashes(false, &hs, stats, &["C10", "C08"], "state-after-clean", "state-after-clean");
